@@ -21,6 +21,25 @@ ADMIN = ["SHOW DATABASES", "SHOW POOLS", "SHOW STATS", "SHOW CONFIG", "SHOW BANS
 ROLE_T = {"primary": "Primary", "Primary": "Primary", "replica": "Replica", "Replica": "Replica", "mirror": "Mirror", "Mirror": "Mirror"}
 REGEXES = [r"/\* shard_id: (\d+) \*/", r"/\* sharding_key: (\d+) \*/", r"^\d+$", "", "(", "[a-", r"(?P<n", r"(a)\1", r"(?=x)", "*a", r"\p{Foo}"]
 U32, U64MAX_TOML = 4294967295, 9223372036854775807
+TLSDIR = os.path.join(TMPDIR, "tls")
+CERT = os.path.join(vlib.REPO, ".circleci", "server.cert")
+KEY = os.path.join(vlib.REPO, ".circleci", "server.key")
+CORRUPT, NOPEM, MISSING = os.path.join(TLSDIR, "corrupt.pem"), os.path.join(TLSDIR, "nopem.txt"), os.path.join(TLSDIR, "missing.pem")
+TLS_PATHS = [CERT, KEY, CORRUPT, NOPEM, MISSING]
+# (name, tls_certificate, tls_private_key)
+TLS_OPTIONS = [("pair", CERT, KEY), ("cert_missing", MISSING, KEY), ("key_missing", CERT, MISSING), ("only_cert", CERT, None), ("only_key", None, KEY),
+               ("only_missing_key", None, MISSING), ("cert_corrupt", CORRUPT, KEY), ("key_corrupt", CERT, CORRUPT), ("cert_without_pem", NOPEM, KEY),
+               ("key_without_pem", CERT, NOPEM), ("swapped", KEY, CERT)]
+PLUGS = [{"table_access": (True, ["g"]), "query_logger": True}, {"table_access": (False, ["p", "q"]), "query_logger": None}, {"table_access": None, "query_logger": False},
+         {"table_access": None, "query_logger": None}, {"table_access": (True, []), "query_logger": None}]
+
+
+def write_tls_files():
+    os.makedirs(TLSDIR, exist_ok=True)
+    open(CORRUPT, "w").write("-----BEGIN CERTIFICATE-----\n!!!notbase64!!!\n-----END CERTIFICATE-----\n")
+    open(NOPEM, "w").write("no PEM block in this file\n")
+    if os.path.exists(MISSING):
+        os.remove(MISSING)
 
 
 # ----------------------------------------------------------------------------- harness
@@ -70,20 +89,28 @@ def base_config(rng, nshards=None, probe=False):
             svs.append(s)
         shards.append({"key": str(i), "database": "d%d" % i, "servers": svs, "mirrors": None})
     users = [{"key": "0", "username": "u", "password": "pw", "pool_size": rng.choice([1, 5, 20]), "min_pool_size": None,
-              "connect_timeout": None, "idle_timeout": None, "server_lifetime": None}]
+              "connect_timeout": None, "idle_timeout": None, "server_lifetime": None,
+              "pool_mode": rng.choice([None, None, "transaction", "session"]), "statement_timeout": rng.choice([None, 0, 77])}]
     if rng.random() < 0.4:
         users.append({"key": "1", "username": "v", "password": "pw2", "pool_size": rng.choice([1, 3, U32]), "min_pool_size": rng.choice([None, 0, 1]),
-                      "connect_timeout": None, "idle_timeout": None, "server_lifetime": None})
+                      "connect_timeout": None, "idle_timeout": None, "server_lifetime": rng.choice([None, 7000]),
+                      "pool_mode": rng.choice([None, "transaction", "session"]), "statement_timeout": rng.choice([None, 1500])})
     pool = {"name": "db", "default_role": rng.choice([None, "any", "primary", "replica"]),
             "default_shard": rng.choice([None, None, "shard_0", "shard_%d" % (n - 1), "random", "random_healthy"]),
             "parser": rng.random() < 0.5, "rw_split": False, "plugins": None, "auto_key": None,
             "key_regex": None, "shard_regex": None, "auth_query": None, "auth_query_user": None, "auth_query_password": None,
             "connect_timeout": None, "idle_timeout": None, "server_lifetime": None,
-            "activity": None, "shards": shards, "users": users}
+            "activity": None, "shards": shards, "users": users,
+            "pool_mode": rng.choice([None, "transaction", "session"]), "extra": {}}
+    # options from_config copies into PoolSettings unchanged (checked by the monitor, no model)
+    if rng.random() < 0.5:
+        pool["extra"] = {"primary_reads_enabled": rng.random() < 0.5, "load_balancing_mode": rng.choice(["random", "loc"]),
+                         "sharding_function": rng.choice(["pg_bigint_hash", "sha1"]), "regex_search_limit": rng.choice([10, 1000, 5000]),
+                         "query_parser_max_length": rng.choice([64, 100000]), "checkout_failure_limit": rng.choice([1, 9])}
     if pool["parser"]:
         pool["rw_split"] = rng.random() < 0.5
-        if rng.random() < 0.3:
-            pool["plugins"] = {"query_logger": True}
+        if rng.random() < 0.4:
+            pool["plugins"] = copy.deepcopy(rng.choice(PLUGS))
         if rng.random() < 0.3:
             pool["auto_key"] = "data.id"
     if rng.random() < 0.25:
@@ -92,8 +119,15 @@ def base_config(rng, nshards=None, probe=False):
         pool["key_regex"] = REGEXES[1]
     g = {"connect_timeout": 20 if probe else rng.choice([None, 20, 5000]), "idle_timeout": rng.choice([None, 30000]),
          "server_lifetime": rng.choice([None, 86400000]), "auth_query": None, "auth_query_user": None, "auth_query_password": None,
-         "plugins": rng.random() < 0.2}
+         "plugins": copy.deepcopy(rng.choice(PLUGS)) if rng.random() < 0.4 else None, "tls": None, "extra": {}}
+    if rng.random() < 0.4:
+        g["extra"] = {"healthcheck_timeout": rng.choice([500, 1000]), "healthcheck_delay": rng.choice([10, 30000]), "ban_time": rng.choice([1, 60, 3600])}
     return {"general": g, "pools": [pool]}
+
+
+def set_tls(cfg, name):
+    _, c, k = next(o for o in TLS_OPTIONS if o[0] == name)
+    cfg["general"]["tls"] = {"name": name, "cert": c, "key": k}
 
 
 def second_pool(rng, cfg):
@@ -210,6 +244,12 @@ def m_user(style):
             u[rng.choice(["connect_timeout", "idle_timeout", "server_lifetime"])] = 0
         elif style == "timeout_small":
             u[rng.choice(["connect_timeout", "idle_timeout", "server_lifetime"])] = rng.choice([1, 50])
+        elif style == "overrides":
+            u["pool_mode"] = rng.choice(["transaction", "session"]); u["statement_timeout"] = rng.choice([0, 1, 123456])
+            u["min_pool_size"] = rng.choice([0, 1]); u["server_lifetime"] = rng.choice([5, 99999]); u["idle_timeout"] = rng.choice([7, 88888])
+            p["server_lifetime"] = rng.choice([None, 4444]); p["idle_timeout"] = rng.choice([None, 3333]); p["pool_mode"] = rng.choice([None, "transaction", "session"])
+        elif style == "statement_timeout_bad":
+            u["statement_timeout"] = -1
         elif style == "no_username":
             u["username"] = None
     return f
@@ -233,9 +273,19 @@ def m_pool(style):
         elif style == "rw_no_parser":
             p["parser"] = False; p["rw_split"] = True
         elif style == "plugins_no_parser":
-            p["parser"] = False; p["rw_split"] = False; p["plugins"] = rng.choice([{}, {"query_logger": True}, {"table_access": True}])
+            p["parser"] = False; p["rw_split"] = False; p["plugins"] = copy.deepcopy(rng.choice(PLUGS))
         elif style == "plugins_parser":
-            p["parser"] = True; p["plugins"] = rng.choice([{}, {"query_logger": True}, {"table_access": True}])
+            p["parser"] = True; p["plugins"] = copy.deepcopy(rng.choice(PLUGS))
+        elif style == "plugins_both":
+            p["parser"] = True; p["plugins"] = copy.deepcopy(rng.choice(PLUGS)); cfg["general"]["plugins"] = copy.deepcopy(rng.choice(PLUGS))
+        elif style == "plugins_global_only":
+            p["plugins"] = None; cfg["general"]["plugins"] = copy.deepcopy(rng.choice(PLUGS))
+        elif style == "pool_mode":
+            p["pool_mode"] = rng.choice(["transaction", "session"])
+            for u in p["users"]:
+                u["pool_mode"] = rng.choice([None, "transaction", "session"])
+        elif style == "pool_mode_bad":
+            rng.choice([p] + p["users"])["pool_mode"] = rng.choice(["statement", "SESSION", ""])
         elif style == "auto_key":
             p["parser"] = True
             p["auto_key"] = rng.choice(["data.id", "id", "a.b.c", ".", '"data"."id"', "", 'a."b.c"', "..", "a.", '"', "x.y\"z\""])
@@ -297,16 +347,17 @@ MUTATIONS = ([("keys:" + s, m_keys(s)) for s in ["gap", "not_from_0", "dup_after
              [("servers:" + s, m_servers(s)) for s in ["two_primaries", "duplicate", "same_host_other_role", "zero_servers", "mirror_role", "bad_role", "cap_role",
                                                        "port_edge", "port_bad", "mirrors_in", "mirrors_out", "mirrors_empty", "mirrors_bad"]] +
              [("user:" + s, m_user(s)) for s in ["size0", "size_max", "size_bad", "min_eq", "min_gt", "no_password", "dup_username", "no_users", "timeout0",
-                                                 "timeout_small", "no_username"]] +
+                                                 "timeout_small", "no_username", "overrides", "statement_timeout_bad"]] +
              [("pool:" + s, m_pool(s)) for s in ["ds_out", "ds_spelling", "ds_garbage", "role_bad", "timeout0", "timeout_set", "rw_no_parser", "plugins_no_parser",
                                                  "plugins_parser", "auto_key", "regex_bad", "regex_good", "auth_full", "auth_partial", "auth_no_query",
-                                                 "activity_ok", "activity_zero", "activity_off_zero", "no_shards_table", "no_users_table"]] +
+                                                 "activity_ok", "activity_zero", "activity_off_zero", "no_shards_table", "no_users_table",
+                                                 "plugins_both", "plugins_global_only", "pool_mode", "pool_mode_bad"]] +
              [("general:" + s, m_general(s)) for s in ["timeout0", "auth_full", "auth_partial", "auth_split", "second_pool"]])
 
 
 BENIGN_NAMES = {"keys:plus", "keys:leading_zero", "servers:same_host_other_role", "servers:cap_role", "servers:port_edge", "servers:mirrors_in",
                 "servers:mirrors_empty", "user:size_max", "user:min_eq", "user:dup_username", "user:timeout_small", "pool:ds_spelling", "pool:timeout_set", "pool:plugins_parser",
-                "pool:auto_key", "pool:regex_good", "pool:auth_full", "pool:auth_no_query", "pool:activity_ok", "pool:activity_off_zero", "general:auth_full", "general:auth_split",
+                "pool:auto_key", "pool:plugins_both", "pool:plugins_global_only", "pool:pool_mode", "user:overrides", "pool:regex_good", "pool:auth_full", "pool:auth_no_query", "pool:activity_ok", "pool:activity_off_zero", "general:auth_full", "general:auth_split",
                 "general:second_pool"}
 BENIGN = [m for m in MUTATIONS if m[0] in BENIGN_NAMES]
 
@@ -320,6 +371,19 @@ def tstr(s):
     return json.dumps(s)
 
 
+def tval(v):
+    return ("true" if v else "false") if isinstance(v, bool) else (tstr(v) if isinstance(v, str) else str(v))
+
+
+def plug_toml(path, pl):
+    out = ["[%s]" % path]
+    if pl["table_access"] is not None:
+        out += ["[%s.table_access]" % path, "enabled = %s" % tval(pl["table_access"][0]), "tables = [%s]" % ", ".join(tstr(t) for t in pl["table_access"][1])]
+    if pl["query_logger"] is not None:
+        out += ["[%s.query_logger]" % path, "enabled = %s" % tval(pl["query_logger"])]
+    return out
+
+
 def to_toml(cfg):
     g = cfg["general"]
     out = ['[general]', 'host = "127.0.0.1"', 'port = 6432', 'admin_username = "admin"', 'admin_password = "admin"', 'validate_config = false']
@@ -329,8 +393,15 @@ def to_toml(cfg):
     for k in ("auth_query", "auth_query_user", "auth_query_password"):
         if g[k] is not None:
             out.append("%s = %s" % (k, tstr(g[k])))
-    if g["plugins"]:
-        out += ["[plugins]", "[plugins.query_logger]", "enabled = false"]
+    if g["tls"] is not None:
+        if g["tls"]["cert"] is not None:
+            out.append("tls_certificate = %s" % tstr(g["tls"]["cert"]))
+        if g["tls"]["key"] is not None:
+            out.append("tls_private_key = %s" % tstr(g["tls"]["key"]))
+    for k, v in g["extra"].items():
+        out.append("%s = %s" % (k, tval(v)))
+    if g["plugins"] is not None:
+        out += plug_toml("plugins", g["plugins"])
     for p in cfg["pools"]:
         pn = tkey(p["name"])
         out.append("[pools.%s]" % pn)
@@ -342,6 +413,10 @@ def to_toml(cfg):
         out.append("query_parser_read_write_splitting = %s" % ("true" if p["rw_split"] else "false"))
         if p["auto_key"] is not None:
             out.append("automatic_sharding_key = %s" % tstr(p["auto_key"]))
+        if p["pool_mode"] is not None:
+            out.append("pool_mode = %s" % tstr(p["pool_mode"]))
+        for k, v in p["extra"].items():
+            out.append("%s = %s" % (k, tval(v)))
         if p["key_regex"] is not None:
             out.append("sharding_key_regex = %s" % tstr(p["key_regex"]))
         if p["shard_regex"] is not None:
@@ -357,11 +432,7 @@ def to_toml(cfg):
             out += ["db_activity_based_routing = %s" % ("true" if a[0] else "false"), "db_activity_init_delay = %d" % a[1],
                     "db_activity_ttl = %d" % a[2], "table_mutation_cache_ms_ttl = %d" % a[3]]
         if p["plugins"] is not None:
-            out.append("[pools.%s.plugins]" % pn)
-            if p["plugins"].get("query_logger"):
-                out += ["[pools.%s.plugins.query_logger]" % pn, "enabled = true"]
-            if p["plugins"].get("table_access"):
-                out += ["[pools.%s.plugins.table_access]" % pn, "enabled = true", 'tables = ["secret"]']
+            out += plug_toml("pools.%s.plugins" % pn, p["plugins"])
         if p["users"] is not None:
             out.append("[pools.%s.users]" % pn)
             for u in p["users"]:
@@ -372,9 +443,11 @@ def to_toml(cfg):
                     out.append("password = %s" % tstr(u["password"]))
                 if u["pool_size"] is not None:
                     out.append("pool_size = %d" % u["pool_size"])
-                for k in ("min_pool_size", "connect_timeout", "idle_timeout", "server_lifetime"):
+                for k in ("min_pool_size", "connect_timeout", "idle_timeout", "server_lifetime", "statement_timeout"):
                     if u[k] is not None:
                         out.append("%s = %d" % (k, u[k]))
+                if u["pool_mode"] is not None:
+                    out.append("pool_mode = %s" % tstr(u["pool_mode"]))
         if p["shards"] is not None:
             out.append("[pools.%s.shards]" % pn)
             for s in p["shards"]:
@@ -396,6 +469,14 @@ def typed(cfg):
                 return False
             if u["min_pool_size"] is not None and not (0 <= u["min_pool_size"] <= U32):
                 return False
+            if u["statement_timeout"] is not None and u["statement_timeout"] < 0:
+                return False
+            if u["pool_mode"] not in (None, "transaction", "session"):
+                return False
+        if p["pool_mode"] not in (None, "transaction", "session"):
+            return False
+        if False:
+            pass
         for s in p["shards"]:
             for h, pt, r in s["servers"]:
                 if r not in ROLE_T or not (0 <= pt <= 65535):
@@ -422,6 +503,17 @@ def cb(b):
     return "true" if b else "false"
 
 
+def cplug(pl):
+    if pl is None:
+        return "None"
+    ta = "None" if pl["table_access"] is None else "(Some (%s, [%s]))" % (cb(pl["table_access"][0]), "; ".join(cs(t) for t in pl["table_access"][1]))
+    return "(Some {| pl_table_access := %s; pl_query_logger := %s |})" % (ta, copt(pl["query_logger"], cb))
+
+
+def cmode(m):
+    return {"transaction": "Transaction", "session": "Session"}[m]
+
+
 def to_coq(cfg, regex_ok):
     """Gallina expression evaluating to (run c, all_panics c) (or (Rejected, []) when a default_shard does not deserialise)."""
     g = cfg["general"]
@@ -434,24 +526,27 @@ def to_coq(cfg, regex_ok):
             cs(s["key"]),
             "; ".join("{| sv_host := %s; sv_port := %d; sv_role := %s |}" % (cs(h), pt, ROLE_T[r]) for h, pt, r in s["servers"]),
             "; ".join("{| mi_host := %s; mi_port := %d; mi_target := %d |}" % (cs(h), pt, ix) for h, pt, ix in (s["mirrors"] or []))) for s in shards) + "]"
-        us_c = "[" + "; ".join("(%s, {| u_name := %s; u_password := %s; u_pool_size := %d; u_min_pool_size := %s; u_connect_timeout := %s; u_idle_timeout := %s; u_server_lifetime := %s |})" % (
+        us_c = "[" + "; ".join("(%s, {| u_name := %s; u_password := %s; u_pool_size := %d; u_min_pool_size := %s; u_connect_timeout := %s; u_idle_timeout := %s; u_server_lifetime := %s; u_pool_mode := %s; u_statement_timeout := %d |})" % (
             cs(u["key"]), cs(u["username"]), cb(u["password"] is not None), u["pool_size"], copt(u["min_pool_size"], cz), copt(u["connect_timeout"], cz),
-            copt(u["idle_timeout"], cz), copt(u["server_lifetime"], cz)) for u in users) + "]"
+            copt(u["idle_timeout"], cz), copt(u["server_lifetime"], cz), copt(u["pool_mode"], cmode), u["statement_timeout"] or 0) for u in users) + "]"
         a = p["activity"] or [False, 100, 900, 50]
-        pools.append("{| p_name := %s; p_default_role := %s; p_default_shard := nth %d ds (DShard 0); p_parser := %s; p_rw_split := %s; p_plugins := %s; "
+        pools.append("{| p_name := %s; p_default_role := %s; p_default_shard := nth %d ds (DShard 0); p_parser := %s; p_rw_split := %s; p_plugins := %s; p_pool_mode := %s; "
                      "p_auto_key := %s; p_key_regex := %s; p_shard_regex := %s; p_auth_query := %s; p_auth_user := %s; p_auth_password := %s; "
                      "p_connect_timeout := %s; p_idle_timeout := %s; p_server_lifetime := %s; p_activity := %s; p_act_delay := %d; p_act_ttl := %d; p_mut_ttl := %d; "
                      "p_shards := %s; p_users := %s |}" % (
-                         cs(p["name"]), cs(p["default_role"] if p["default_role"] is not None else "any"), i, cb(p["parser"]), cb(p["rw_split"]), cb(p["plugins"] is not None),
+                         cs(p["name"]), cs(p["default_role"] if p["default_role"] is not None else "any"), i, cb(p["parser"]), cb(p["rw_split"]), cplug(p["plugins"]), cmode(p["pool_mode"] or "transaction"),
                          copt(p["auto_key"], cs), copt(None if p["key_regex"] is None else regex_ok[p["key_regex"]], cb),
                          copt(None if p["shard_regex"] is None else regex_ok[p["shard_regex"]], cb),
                          cb(p["auth_query"] is not None), cb(p["auth_query_user"] is not None), cb(p["auth_query_password"] is not None),
                          copt(p["connect_timeout"], cz), copt(p["idle_timeout"], cz), copt(p["server_lifetime"], cz), cb(a[0]), a[1], a[2], a[3], sh_c, us_c))
-    c = ("{| g_auth_query := %s; g_auth_user := %s; g_auth_password := %s; g_connect_timeout := %s; g_idle_timeout := %s; g_server_lifetime := %s; c_pools := [%s] |}" % (
+    c = ("{| g_auth_query := %s; g_auth_user := %s; g_auth_password := %s; g_connect_timeout := %s; g_idle_timeout := %s; g_server_lifetime := %s; g_tls_cert := %s; g_tls_key := %s; g_plugins := %s; c_pools := [%s] |}" % (
         cb(g["auth_query"] is not None), cb(g["auth_query_user"] is not None), cb(g["auth_query_password"] is not None),
         "default_connect_timeout" if g["connect_timeout"] is None else str(g["connect_timeout"]),
         "default_idle_timeout" if g["idle_timeout"] is None else str(g["idle_timeout"]),
-        "default_server_lifetime" if g["server_lifetime"] is None else str(g["server_lifetime"]), "; ".join(pools)))
+        "default_server_lifetime" if g["server_lifetime"] is None else str(g["server_lifetime"]),
+        copt(None if g["tls"] is None or g["tls"]["cert"] is None else regex_ok[("cert", g["tls"]["cert"])], cb),
+        copt(None if g["tls"] is None or g["tls"]["key"] is None else regex_ok[("key", g["tls"]["key"])], cb),
+        cplug(g["plugins"]), "; ".join(pools)))
     return "[%s]" % "; ".join(raws), c
 
 
@@ -518,6 +613,28 @@ def monitor(cfg, r):
                             bad.append("ban/unban/pool_state of [%d][%d] of %s/%s: %s" % (sh, i, bp["db"], bp["user"], {k: a.get(k) for k in ("banned_after_ban", "banned_after_unban", "state_by_address")}))
             if any(a["shard"] >= bp["shards"] for a in alla):
                 bad.append("an address of %s/%s carries a shard number >= shards()" % (bp["db"], bp["user"]))
+            # the settings the pool runs with: documented precedence, computed from the file alone.
+            # users sharing a username: the last key wins (its settings are the observed ones)
+            last = [x for x in cp["users"] if x["username"] == u["username"]][-1]
+            if last is u:
+                st = impl_settings(bp["settings"])
+                gp = cfg["general"]["plugins"]
+                eff_pl = cp["plugins"] if cp["plugins"] is not None else gp
+                want_st = {"pool_mode": u["pool_mode"] or cp["pool_mode"] or "transaction",
+                           "plugins": None if eff_pl is None else {"table_access": None if eff_pl["table_access"] is None else (eff_pl["table_access"][0], list(eff_pl["table_access"][1])),
+                                                                   "query_logger": eff_pl["query_logger"], "other_sections": []},
+                           "user": (u["username"], u["pool_size"], u["min_pool_size"], u["pool_mode"], u["statement_timeout"] or 0, u["connect_timeout"], u["idle_timeout"], u["server_lifetime"]),
+                           "auto_key": None if cp["auto_key"] is None else cp["auto_key"].replace('"', ""), "parser": cp["parser"], "rw": cp["rw_split"]}
+                for k in want_st:
+                    if st[k] != want_st[k]:
+                        bad.append("settings.%s of %s/%s is %r, the file says %r" % (k, bp["db"], bp["user"], st[k], want_st[k]))
+                raw = bp["settings"]
+                names = {"loc": "least_outstanding_connections"}
+                for k, v in list(cp["extra"].items()) + list(cfg["general"]["extra"].items()):
+                    if raw.get(k) != names.get(v, v):
+                        bad.append("settings.%s of %s/%s is %r, the file says %r" % (k, bp["db"], bp["user"], raw.get(k), v))
+                if raw["user"]["password"] != u["password"] or raw["db"] != cp["name"]:
+                    bad.append("settings.user/db of %s/%s belong to another section" % (bp["db"], bp["user"]))
     for cmd, v in (r.get("admin") or {}).items():
         if "panic" in v:
             bad.append("admin %s panicked: %s" % (cmd, v["panic"]))
@@ -529,6 +646,8 @@ def monitor(cfg, r):
             bad.append("SHOW DATABASES lists %s, pools hold %s" % (got[:6], want[:6]))
     if r.get("show", "ok") != "ok":
         bad.append("Config::show(): %s" % r["show"])
+    if str(r.get("tls", "ok")).startswith("panic"):
+        bad.append("Tls::new(): %s" % r["tls"])
     return bad
 
 
@@ -537,8 +656,38 @@ def impl_table(r):
     for p in r.get("pools", []):
         rows = [[(a["host"], a["port"], a["role"].capitalize(), a["shard"], a["index"], a["replica_number"],
                   [(m["host"], m["port"], m["role"].capitalize(), m["shard"], m["index"], m["replica_number"]) for m in a["mirrors"]]) for a in row] for row in p["addresses"]]
-        out.append((p["db"], p["user"], (p["shards"], p["settings_shards"], p["pool_size"]), (p["default_shard"], p["default_role"], not p["panics"]), rows))
+        out.append((p["db"], p["user"], (p["shards"], p["settings_shards"], p["pool_size"]), (p["default_shard"], p["default_role"], not p["panics"]), rows,
+                    impl_settings(p["settings"])))
     return sorted(out, key=lambda t: (t[0], t[1]))
+
+
+def impl_settings(st):
+    pl = st["plugins"]
+    u = st["user"]
+    return {"pool_mode": st["pool_mode"],
+            "plugins": None if pl is None else {"table_access": None if pl["table_access"] is None else (pl["table_access"]["enabled"], list(pl["table_access"]["tables"])),
+                                                "query_logger": None if pl["query_logger"] is None else pl["query_logger"]["enabled"],
+                                                "other_sections": [k for k in ("intercept", "prewarmer") if pl.get(k) is not None]},
+            "user": (u["username"], u["pool_size"], u["min_pool_size"], u["pool_mode"], u["statement_timeout"], u["connect_timeout"], u["idle_timeout"], u["server_lifetime"]),
+            "auto_key": st["automatic_sharding_key"], "parser": st["query_parser_enabled"], "rw": st["query_parser_read_write_splitting"]}
+
+
+def opt(x, f=lambda v: v):
+    x = ident(x)
+    if x is None or x == "None":
+        return None
+    v = ident(x[1])
+    v = {"true": True, "false": False}.get(v, v) if isinstance(v, str) else v
+    return f(v)
+
+
+def model_settings(t):
+    mode, plug, (name, size, mn, (umode, stmt), (ct, it, lt)), (ak, parser, rw), bb8 = t
+    return ({"pool_mode": ident(mode).lower(),
+             "plugins": opt(plug, lambda pq: {"table_access": opt(pq[0], lambda ta: (ta[0], [bstr(x) for x in ta[1]])), "query_logger": opt(pq[1]), "other_sections": []}),
+             "user": (bstr(name), size, opt(mn), opt(umode, lambda m: m.lower()), stmt, opt(ct), opt(it), opt(lt)),
+             "auto_key": opt(ak, bstr), "parser": parser, "rw": rw},
+            opt(bb8, lambda b: {"max_size": b[0], "min_idle": opt(b[1]), "connect_timeout": b[2][0], "idle_timeout": b[2][1], "max_lifetime": b[2][2]}))
 
 
 def ident(x):
@@ -548,11 +697,11 @@ def ident(x):
 
 def model_table(m):
     out = []
-    for (db, usr, sizes, (ds, dr, ok), rows) in m:
+    for (db, usr, sizes, (ds, dr, ok), rows, st) in m:
         ds_s = "Shard(%d)" % ds[1] if isinstance(ds, tuple) else {"DRandom": "Random", "DRandomHealthy": "RandomHealthy"}[ds]
         dr_s = None if dr is None else ident(dr[1]).lower()
         rr = [[(bstr(h), pt, ident(ro), sh, ix, rn, [(bstr(mh), mp, ident(mr), ms, mi, mn) for (mh, mp, mr, ms, mi, mn) in mirrors]) for (h, pt, ro, sh, ix, rn, mirrors) in row] for row in rows]
-        out.append((bstr(db), bstr(usr), tuple(sizes), (ds_s, dr_s, ok), rr))
+        out.append((bstr(db), bstr(usr), tuple(sizes), (ds_s, dr_s, ok), rr, model_settings(st)[0]))
     return sorted(out, key=lambda t: (t[0], t[1]))
 
 
@@ -584,6 +733,10 @@ CORPUS = [
     ("server with the mirror role", _G + "[pools.db]\n" + _U + '[pools.db.shards.0]\ndatabase = "d"\nservers = [["127.0.0.1", 1, "mirror"]]\n', False),
     ("mirror with mirroring_target_index out of range", _G + "[pools.db]\n" + _U + '[pools.db.shards.0]\ndatabase = "d"\nservers = [["127.0.0.1", 1, "primary"]]\nmirrors = [["127.0.0.1", 2, 1]]\n', False),
     ("mirror on an existing server", _G + "[pools.db]\n" + _U + '[pools.db.shards.0]\ndatabase = "d"\nservers = [["127.0.0.1", 1, "primary"], ["127.0.0.1", 2, "replica"]]\nmirrors = [["127.0.0.1", 3, 1], ["127.0.0.1", 4, 1]]\n', True),
+    ("TLS pair loads, shard keys {1,2} (the pool checks must still run)", _G + 'tls_certificate = %s\ntls_private_key = %s\n' % (json.dumps(CERT), json.dumps(KEY)) + "[pools.db]\n" + _U + _one("1", 1) + _one("2", 2), False),
+    ("TLS pair loads, pool_size = 0", _G + 'tls_certificate = %s\ntls_private_key = %s\n' % (json.dumps(CERT), json.dumps(KEY)) + "[pools.db]\n" + _U.replace("pool_size = 5", "pool_size = 0") + _S0, False),
+    ("TLS pair loads, valid pools", _G + 'tls_certificate = %s\ntls_private_key = %s\n' % (json.dumps(CERT), json.dumps(KEY)) + "[pools.db]\n" + _U + _S0, True),
+    ("tls_certificate without tls_private_key", _G + 'tls_certificate = %s\n' % json.dumps(CERT) + "[pools.db]\n" + _U + _S0, False),
     ("D6 auth_query_user/password without auth_query (pool)", _G + '[pools.db]\nauth_query_user = "a"\nauth_query_password = "b"\n' + _U + _S0, True),
     ("D6 auth_query_user/password without auth_query ([general])", _G + 'auth_query_user = "a"\nauth_query_password = "b"\n[pools.db]\n' + _U + _S0, True),
     ("keys +1 and 01 spell shard 1", _G + "[pools.db]\n" + _U + _one("0", 1) + _one("+1", 2), True),
@@ -626,13 +779,22 @@ def resource_guard(cfg):
 def gen_cases(rng, nrand):
     cases = []
     # boundary set: every mutation applied alone to fixed bases of 1, 2 and 3 shards
+    # and each of them once more with a loadable TLS pair (the verdict must not depend on it)
     for name, f in MUTATIONS:
         for n in (1, 3):
             c = base_config(rng, nshards=n)
             f(c, rng)
             cases.append(([name], c))
+            c2 = copy.deepcopy(c)
+            set_tls(c2, "pair")
+            cases.append(([name, "tls:pair"], c2))
     for n in (1, 2, 3, 4):
         cases.append(([], base_config(rng, nshards=n)))
+    for tname, _, _ in TLS_OPTIONS:
+        for n in (1, 3):
+            c = base_config(rng, nshards=n)
+            set_tls(c, tname)
+            cases.append((["tls:" + tname], c))
     for _ in range(nrand):
         c = base_config(rng)
         k = rng.choice([0, 1, 1, 1, 2, 2, 3])
@@ -645,6 +807,12 @@ def gen_cases(rng, nrand):
                 f(c, rng); names.append(name)
             except (IndexError, ValueError, KeyError, TypeError):
                 pass            # an earlier mutation removed what this one edits
+        t = rng.random()
+        if t < 0.35:
+            set_tls(c, "pair"); names.append("tls:pair")
+        elif t < 0.55:
+            tn = rng.choice(TLS_OPTIONS)[0]
+            set_tls(c, tn); names.append("tls:" + tn)
         cases.append((names, c))
     for _, c in cases:
         resource_guard(c)
@@ -663,13 +831,16 @@ def check(run):
     quick = run.tier == "quick"
     rng = run.rng
     run.assumptions += [
-        "Coq 8.16.1 kernel + vm_compute; no axioms (Print Assumptions: closed under the global context for all 29 theorems)",
+        "Coq 8.16.1 kernel + vm_compute; no axioms (Print Assumptions: closed under the global context for all 34 theorems)",
         "coq/Config/Model.v is a hand transcription of Config/Pool/Shard/User::validate, the DefaultShard deserialiser, fill_up_auth_query_config, from_config's construction "
         "and the index operations of pool.rs/admin.rs (validated each run against the real code on the generated files)",
         "toml 0.7 + serde derive (types, required fields, Role aliases) and the regex crate's verdict on a pattern are environment: the model starts from the typed structs "
         "and takes Regex::new(..).is_ok() as an input bit (asked from the real crate by the harness)",
         "bb8 0.8.6 Builder assertions (max_size > 0, non-zero timeouts, min_idle <= max_size) are modelled as read from bb8's source",
-        "the TLS block of Config::validate and [general] keys other than the three timeouts and auth_query* are outside the grammar",
+        "tls::load_certs / tls::load_keys verdicts on a path are environment bits of the model (asked from the real loaders on the repository's CI certificate, a missing, a corrupt and a PEM-less file); "
+        "Tls::new() is run on accepted files but is outside the model",
+        "bb8 builder arguments (max_size, min_idle, idle_timeout, max_lifetime) are not observable through the public API: modelled; connection_timeout is observed by coarse timing (40 ms vs 2500 ms) of get() against a refusing server",
+        "PoolSettings fields copied unchanged (healthcheck_*, ban_time, load_balancing_mode, sharding_function, regex_search_limit, query_parser_max_length, checkout_failure_limit, primary_reads_enabled) are checked by the model-free monitor only",
         "hypotheses of c15_accepted_servable besides acceptance: fewer than 2^63 shards per pool, DefaultShard::Shard carries a usize (non-negative)",
     ]
     run.cov["trusted_base"] = ["coqc 8.16.1 kernel", "vm_compute", "coq/Config/Model.v (hand transcription)", "harness/src/cfgwalk.rs + bin/config.rs",
@@ -689,6 +860,14 @@ def check(run):
 
     rx = run_harness(binp, [{"op": "regex", "patterns": REGEXES}])[0]["ok"]
     regex_ok = dict(zip(REGEXES, rx))
+    # the real loaders' verdicts on the TLS files (environment bits of the model, like the regex verdicts)
+    write_tls_files()
+    tl = run_harness(binp, [{"op": "tls", "paths": TLS_PATHS}])[0]
+    for pth, c_ok, k_ok in zip(TLS_PATHS, tl["certs"], tl["keys"]):
+        regex_ok[("cert", pth)] = c_ok
+        regex_ok[("key", pth)] = k_ok
+    if not (regex_ok[("cert", CERT)] and regex_ok[("key", KEY)]):
+        run.broken.append("the repository's CI certificate/key (%s, %s) do not load: the TLS part of the grammar cannot be run" % (CERT, KEY))
 
     cases = gen_cases(rng, 900 if quick else 12000)
     tomls = [to_toml(c) for _, c in cases]
@@ -719,7 +898,19 @@ def check(run):
         # monitor first: the property on the implementation alone
         probs = monitor(cfg, r)
         show_only = [p for p in probs if p.startswith("Config::show()")]
-        probs = [p for p in probs if not p.startswith("Config::show()")]
+        tls_only = [p for p in probs if p.startswith("Tls::new()")]
+        probs = [p for p in probs if not p.startswith("Config::show()") and not p.startswith("Tls::new()")]
+        if tls_only:
+            # reported to the coordinator (tls_private_key file without a key: accepted, Tls::new panics per TLS client);
+            # outside the pools/shards/users theorem: recorded
+            ob = run.cov.setdefault("observations", {})
+            ob["Tls::new() panics on an accepted tls_private_key file that holds no private key"] = ob.get("Tls::new() panics on an accepted tls_private_key file that holds no private key", 0) + 1
+        # the verdict must not depend on a loadable TLS pair: same file without it, generated just before
+        if names and names[-1] == "tls:pair" and i > 0 and cases[i - 1][0] == names[:-1] and bool(res[i - 1].get("accept")) != bool(r.get("accept")):
+            run.violation("counterexample", "the verdict depends on tls_certificate/tls_private_key: %s without, %s with a loadable pair (mutations %s)" % (
+                "accepted" if res[i - 1].get("accept") else "rejected", "accepted" if r.get("accept") else "rejected", names[:-1]),
+                dict(rep, without_tls={"toml": tomls[i - 1], "accept": res[i - 1].get("accept")}))
+            continue
         if show_only:
             # outside the property's theorem (startup logging, overflow checks are a debug-build feature): recorded, not reported
             run.cov.setdefault("observations", {})["Config::show() u32 overflow of summed pool sizes (debug builds)"] = \
@@ -842,13 +1033,45 @@ def check(run):
         samples.append({"kind": "probe", "db": pmeta[0][1], "user": pmeta[0][2], "probe": pres[0].get("probe", [])[:3]})
     run.log("get() probes compared: %d" % nprobes)
 
+    # connect_timeout precedence (user over pool over [general]) observed on the real bb8 pool: a get() against a
+    # refusing server gives up after the effective timeout.  Coarse bounds only: 40 ms vs 2500 ms.
+    tcases = []
+    for lvl_u, lvl_p, lvl_g in [(40, None, 2500), (None, 40, 2500), (None, None, 40), (2500, 40, 40), (None, 2500, 40), (None, None, 2500), (40, 2500, 2500), (2500, None, 40)]:
+        c = base_config(rng, nshards=1, probe=True)
+        c["general"]["connect_timeout"] = lvl_g
+        p = c["pools"][0]; p["connect_timeout"] = lvl_p; p["users"] = p["users"][:1]; p["users"][0]["connect_timeout"] = lvl_u
+        p["shards"][0]["servers"] = [["127.0.0.1", 1, "primary"]]; p["default_role"] = None; p["auth_query"] = None
+        tcases.append((c, lvl_u if lvl_u is not None else (lvl_p if lvl_p is not None else lvl_g)))
+    tjobs = [{"toml": to_toml(c), "probe": {"db": "db", "user": "u", "probes": [[None, None]]}} for c, _ in tcases]
+    tres = run_harness(binp, tjobs)
+    tvals = vlib.coq_eval("c15_time", PRE, [coq_run_expr(c, regex_ok) for c, _ in tcases], shard=1) if proof_ok else [None] * len(tcases)
+    for (c, want), job, r, v in zip(tcases, tjobs, tres, tvals):
+        evals += 1
+        rep = {"input": {"toml": job["toml"], "probe": job["probe"]}, "impl": {k: r.get(k) for k in ("accept", "error", "from_config")}, "expected_connect_timeout_ms": want}
+        if not r.get("accept") or r.get("from_config") != "ok":
+            run.violation("tie-broken", "connect_timeout precedence file not accepted/built: %s" % r.get("error", r.get("from_config")), rep, found_input=False); continue
+        el = r["probe"][0]["elapsed_ms"]
+        rep["elapsed_ms"] = el
+        if v is not None:
+            mres, _ = vlib.parse_coq(v)
+            mb = model_settings(mres[1][0][5])[1] if isinstance(mres, tuple) and mres[0] == "AcceptedBuilt" else None
+            run.cov["traces_validated_against_impl"] += 1
+            if mb is None or mb["connect_timeout"] != want:
+                run.violation("tie-broken", "model's bb8 connection_timeout is %s, the precedence user > pool > general gives %s" % (mb and mb["connect_timeout"], want),
+                              dict(rep, correspondence="Config.Model.mk_pool vs documented precedence"), found_input=False); continue
+        if (want >= 2500 and el < 2400) or (want <= 40 and el >= 2000):
+            run.violation("counterexample", "effective connect_timeout should be %d ms (user over pool over general); get() against a refusing server gave up after %d ms" % (want, el), rep)
+    run.log("connect_timeout precedence probes: %d" % len(tcases))
+
     run.cov["evaluations"] = evals
     run.cov["distinct_nontrivial"] = len(distinct)
-    run.cov["rule"] = ("TOML files from a bounded grammar: 1-2 pools, 1-4 shards, 1-3 servers, 1-2 users; %d named mutations (shard key sets/spellings, server lists, roles, users' sizes and "
-                       "timeouts, default_shard/default_role values, regexes, plugin sections, auth_query combinations, automatic_sharding_key forms, missing fields), each alone on a 1- and a "
-                       "3-shard base plus 0-3 random mutations on random bases; every file through config::parse, accepted ones through from_config, the addressing walk, 11 admin statements "
-                       "and Config::show; a second stream of valid files through ConnectionPool::get for every (shard|none|out-of-range, role) against refusing servers. "
-                       "distinct = distinct TOML texts + distinct (file, shard, role) probes" % len(MUTATIONS))
+    run.cov["rule"] = ("TOML files from a bounded grammar: 1-2 pools, 1-4 shards, 1-3 servers, 1-2 users; %d named mutations (shard key sets/spellings, server lists, roles, users' sizes, "
+                       "timeouts, pool_mode / statement_timeout overrides, default_shard/default_role values, regexes, plugin sections at global / pool / both levels, auth_query combinations, "
+                       "automatic_sharding_key forms, missing fields), each alone on a 1- and a 3-shard base, once without and once with a loadable tls_certificate/tls_private_key pair, "
+                       "%d TLS option shapes (pair, missing / corrupt / PEM-less files, only one of the two, swapped), plus 0-3 random mutations and a random TLS option on random bases; "
+                       "every file through config::parse, accepted ones through from_config, the addressing walk, every PoolSettings field, 11 admin statements, Config::show and Tls::new; "
+                       "a second stream of valid files through ConnectionPool::get for every (shard|none|out-of-range, role) against refusing servers; 8 timing probes of the effective "
+                       "connect_timeout. distinct = distinct TOML texts + distinct (file, shard, role) probes" % (len(MUTATIONS), len(TLS_OPTIONS)))
     run.cov["samples"] = samples[:6]
     run.cov["input_distribution"] = {"files": len(cases), "accepted": hist["accepted"], "rejected": hist["rejected"], "ill_typed_for_serde": hist["untyped"],
                                      "mutation_classes_x_verdict": len(classes), "per_mutation": hist["mutations"], "probe_files": len(pcases), "get_probes": nprobes}
